@@ -315,7 +315,7 @@ func c06Judge(files []gen.ImportFile, before, after map[string]snapEnt, where st
 				if strings.HasPrefix(strings.TrimSpace(bl[ln-1]), "import ") {
 					isImport = true
 					for _, cand := range f.Imports {
-						if cand.Text == bl[ln-1] {
+						if cand.Text == strings.TrimRight(bl[ln-1], "\r") {
 							im = cand
 						}
 					}
